@@ -367,7 +367,7 @@ def fault_is(s, C):
 
 
 def fault_raises(cond):
-    return {M.FaultMarker: cond}
+    return {M.FaultMarkerBase: cond}
 
 
 # ------------------------------------------------------------------------------------------------
@@ -942,7 +942,7 @@ def sv_modifies(ctx, s):
 
 C_SVALUE = InliningContract(
     f"{SER}:AutoSerialize._serialize_value", inline=SV_INLINE, setup=sv_setup, snapshot=lambda s: group_snapshot(s.group), modifies=sv_modifies,
-    ensures=sv_ensures, on_raise=sv_on_raise, raises={Exception: sv_raises},
+    ensures=sv_ensures, on_raise=sv_on_raise, raises={Exception: sv_raises, M.FaultMarkerBase: sv_raises},
     note="returns normally only if the value was completely written (ghost done[name] at call sites); raises if the value cannot be "
          "serialised or any write fails, possibly leaving a partial entry",
 )
@@ -1019,7 +1019,7 @@ def sc_modifies(ctx, s):
 C_SCONT = Contract(
     f"{SER}:AutoSerialize._serialize_container", setup=sc_setup, snapshot=lambda s: group_snapshot(s.group), modifies=sc_modifies,
     ensures=sc_ensures, on_raise=lambda s, E: [(f"nothing-removed-from-the-group[{s.case}]", group_grew(s.old, s.group))],
-    raises={Exception: lambda s: False if s.mode == "apply" else z3.BoolVal(faulted(s) or refused(s))},
+    raises={Exception: lambda s: False if s.mode == "apply" else z3.BoolVal(faulted(s) or refused(s)), M.FaultMarkerBase: lambda s: False if s.mode == "apply" else z3.BoolVal(faulted(s) or refused(s))},
 )
 
 
@@ -1101,7 +1101,7 @@ C_WNDARRAY = Contract(
     f"{SER}:AutoSerialize._write_ndarray", setup=wn_setup, snapshot=lambda s: group_snapshot(s.group),
     modifies=array_write_modifies("_write_ndarray"), ensures=wn_ensures,
     on_raise=lambda s, E: [(f"nothing-removed-from-the-group[{s.case}]", group_grew(s.old, s.group))],
-    raises={Exception: lambda s: False if s.mode == "apply" else z3.BoolVal(faulted(s) or s.case in UNSTORABLE_ARRAYS)},
+    raises={Exception: lambda s: False if s.mode == "apply" else z3.BoolVal(faulted(s) or s.case in UNSTORABLE_ARRAYS), M.FaultMarkerBase: lambda s: False if s.mode == "apply" else z3.BoolVal(faulted(s) or s.case in UNSTORABLE_ARRAYS)},
 )
 
 
@@ -1117,7 +1117,7 @@ C_WBYTES = Contract(
     f"{SER}:AutoSerialize._write_bytes", setup=wb_setup, snapshot=lambda s: group_snapshot(s.group),
     modifies=array_write_modifies("_write_bytes"), ensures=wn_ensures,
     on_raise=lambda s, E: [(f"nothing-removed-from-the-group[{s.case}]", group_grew(s.old, s.group))],
-    raises={Exception: lambda s: False if s.mode == "apply" else z3.BoolVal(faulted(s))},
+    raises={Exception: lambda s: False if s.mode == "apply" else z3.BoolVal(faulted(s)), M.FaultMarkerBase: lambda s: False if s.mode == "apply" else z3.BoolVal(faulted(s))},
 )
 
 # ------------------------------------------------------------------------------------------------
